@@ -230,7 +230,10 @@ impl SimPool {
                         if n.msg.starts_with("HARNESS:") {
                             Outcome::Harness(n.msg)
                         } else {
-                            Outcome::Panic { msg: pmsg, location: n.location, task: n.task, task_name: n.task_name, session: n.session, holds: n.holds }
+                            // the first panic of the execution is the cause; the payload that reaches us can be a
+                            // follow-up panic raised while the failed execution is torn down
+                            let msg = if n.msg.is_empty() { pmsg } else { n.msg.clone() };
+                            Outcome::Panic { msg, location: n.location, task: n.task, task_name: n.task_name, session: n.session, holds: n.holds }
                         }
                     };
                     let srec = current.lock().unwrap().take();
